@@ -173,6 +173,8 @@ def parse_trace(path):
                 cur.lines.append(("out", line))
             elif line.startswith("mon "):
                 cur.lines.append(("mon", line))
+            elif line.startswith("act "):
+                cur.lines.append(("act", line))
             elif line == "end":
                 cur = None
     return cases
@@ -184,6 +186,8 @@ def steps_of(case):
     for kind, line in case.lines:
         if kind == "op":
             steps.append((line, [], []))
+        elif kind == "act":
+            continue
         elif steps:
             steps[-1][1 if kind == "out" else 2].append(line)
     return steps
@@ -263,6 +267,9 @@ def case_text(case, upto=None):
         if kind == "op":
             k += 1
             if upto is not None and k > upto:
+                # the `act` line(s) that belong to the cut-off operation were already emitted: drop them
+                while len(out) > 1 and out[-1].startswith("act "):
+                    out.pop()
                 break
         out.append(line)
     out.append("end")
